@@ -496,6 +496,24 @@ def check_optimal_and_inline_pa(run, A):
               construct=f'R-SEL::{q2}::use-best')
 
 
+def check_dhtv_copy(run, A):
+    """the DHTV aligner reorders its working features in place: they must be a fresh array, otherwise the caller's mask -
+    and, inside EM, the affiliation but not the quadratic form - is permuted a second time"""
+    q = P + 'DHTVPermutationAlignment.calculate_mapping'
+    fn = A.prog.func(q)
+    g = A.graphs.get(fn)
+    feats = [e for e in g.events if e.kind == 'store' and not _root_is(e.term.args[0], is_identity_columns)]
+    if not feats:
+        raise AnalysisError('DHTV: feature update vanished')
+    root = _chain_root(feats[0].term.args[0])
+    alts = list(unwrap_gamma(root))
+    ok = bool(alts) and all(is_call_to(x, 'method:copy', 'numpy.copy') or call_parts(x)[0] == P + '_parameterized_vector_norm' or
+                            (is_call_to(x, 'numpy.array') and const_val(call_arg(x, None, 'copy')) in (NOVAL, True)) for x in alts)
+    run.check(ok, 'R-PERM', 'DHTV: the features that are reordered in place are a fresh copy of the mask', fn.loc(), '',
+              'the working features may be the caller\'s mask itself (e.g. np.asarray(mask, dtype=...) returns the argument when the dtype matches): the mask is reordered in place and '
+              'apply_mapping then permutes it a second time', construct=f'R-PERM::{q}::features-copy')
+
+
 def check(run):
     A = run.A
     run.explanation = (
@@ -509,5 +527,6 @@ def check(run):
     check_apply_mapping(run, A)
     check_inline_em_alignment(run, A)
     check_calculate_mappings(run, A)
+    check_dhtv_copy(run, A)
     check_greedy(run, A)
     check_optimal_and_inline_pa(run, A)
